@@ -41,15 +41,23 @@ RULE = ("(a) exact regime: 1-4-d meshes whose cells all have different dyadic si
         "must not give complex results; (g) LONG axes: 1000-2500 (thorough: 8000) cells along one axis of a 1-3-d mesh, data of "
         "nine dtypes incl. full-range int8/int16/int32 (every accumulator overflows unless widened), all directional / cumulative / "
         "total integrals and means against oracle and model; (d) histories: ONE mesh object (one field, or two fields sharing it) "
-        "(binary64 data, or - histories without a quarter turn - int8/16/32/64, uint8/32, bool data) evaluated, then transformed IN PLACE 2-4 (thorough 2-6) times - mesh.scale / mesh.region.scale with scalar and "
+        "(binary64, int8/16/32/64, uint8/32 or bool data) evaluated, then transformed IN PLACE 2-4 (thorough 2-6) times - mesh.scale / mesh.region.scale with scalar and "
         "per-axis factors incl. negative and an explicit reference point, mesh.translate / mesh.region.translate, "
-        "field.rotate90 with k in {1,3,-1,2} - and after every step mesh.dV, mesh.cell, integrate(), integrate(d), cumulative, "
+        "field.rotate90 with k in {1,3,-1,2,0,4,-2,5,-3,1002,-1001} about the centre or an explicit reference point - and after every step mesh.dV, mesh.cell, integrate(), integrate(d), cumulative, "
         "mean(), mean(d), mean(list), a chained integral and Mesh.sel(d) are evaluated again on the SAME objects and must equal "
-        "the model run on the field's CURRENT mesh state (exact; 2^-40 after a quarter turn, whose sin/cos leave the dyadic "
-        "grid) and the oracle for that state (sum x current cell measure; mean() unchanged by scaling/translation; integrals "
-        "unchanged by translation), so a value cached across an in-place change shows; in addition the Lean model REPLAYS the scale / translate "
-        "prefix of every history itself (hstep of DFV/Model/C06Hist.lean, the in-place steps of the shared transformation model) from the "
-        "initial state and after every step its mesh (corners, n, subregions) and all its answers must equal those of the real objects, and "
+        "the model run on the field's CURRENT mesh state (exact; 2^-40 after a quarter turn, whose float sin/cos move the corners off the dyadic "
+        "grid - the vector components are turned exactly by code and model alike) and the oracle for that state (sum x current cell measure; mean() unchanged by scaling/translation; integrals "
+        "unchanged by translation), so a value cached across an in-place change shows; in addition the Lean model REPLAYS EVERY history itself "
+        "- scale / translate through hstep, quarter turns through the shared exact rotate90F (fstep / runFS of DFV/Model/C06Hist.lean) - from the "
+        "initial state and after every step its mesh (corners, n, subregions) and all its answers must equal those of the real objects (equal before the "
+        "first accepted quarter turn, corners and values to 2^-40 after it; a refused turn - vector field without component mapping - must be refused by both), "
+        "its accumulated volume factor must equal dV_now / dV_initial and integrate() of the final state must equal what theorem turns_history states "
+        "(volume factor x initial cell volume x per-component cell sums turned by the accepted turns); (h) subregions OFF the cell lattice: in 30 % of the "
+        "near-origin meshes of (a) every subregion face is moved by 0 or +-2^-44 (exactly representable), so the subregion setter accepts them only thanks to its "
+        "tolerances (1e-12 alignment, 0.1 % divisibility, region atol) on their clear side: construction, every Mesh.sel(d), integrate(d), mean(d), mean(list) and chain "
+        "must succeed in code and model alike and return the same subregions (exact corners); (i) chains with cumulative steps on the binary64 fields of (a), (b): "
+        "integrate(d, cumulative=True).integrate(d), .integrate(d') and integrate(d').integrate(d, cumulative=True), two cumulative integrals in both orders - against the "
+        "model's integrateChain and the oracle (same direction: cell^2 x sum (n - l - 1/2) x_l; other direction / two cumulative: both orders agree, same mesh); "
         "its accumulated volume factor must equal dV_now / dV_initial; (e) abs(field).integrate() / integrate(d) / cumulative against the "
         "model's integrate(absF f). Oracle on the real code alone: numpy sums with the axis looked up "
         "by name x cell length from the corners, reduced-mesh geometry, Fubini over all orders, cumulative formula and "
@@ -70,17 +78,31 @@ UNPROVED = ["the model is rational: complex fields are covered through linearity
             "the model), integer / boolean / narrow floating fields through the exact values they hold; that numpy widens the "
             "accumulator (int8 -> int64, integer mean -> binary64) is NOT a theorem, it is what the correspondence check and the "
             "oracle observe on every dtype (streams (f), (g))",
-            "the success / acceptance theorems (…_ok, fubini_total, fubini_perm, integrate_ok_iff, mean_ok_iff, sel_subregions) take "
-            "subregions that fit the mesh EXACTLY (SubsFit: start a whole number of cells in, a whole number >= 1 of cells long); "
-            "subregions the setter accepts only thanks to its 1e-12 / 0.1 % tolerances are outside the theorems (there the model "
-            "follows the code by correspondence only, on the clear side of the thresholds)",
-            "in-place histories: proved for mesh.scale / mesh.region.scale / mesh.translate / mesh.region.translate (cell lengths, dV, "
-            "all integrals and means, by induction over the history; subregions keep fitting under the mesh-level steps); quarter "
-            "turns (field.rotate90) are not replayed by the Lean model of C06 (float sin/cos in the code) and the region-only "
-            "steps do not keep the subregions fitting, so existence of integrate(d) after them is proved only for meshes without subregions",
+            "subregions: the success / acceptance theorems (…_ok, fubini_total, fubini_perm, integrate_ok_iff, mean_ok_iff, integrateSeq_any_order, "
+            "mean_list_any_order, sel_closed_form, …) take SubsAcc - every STORED subregion passes the setter's own three checks when offered again as "
+            "the plain box Region(p1, p2), which is what Mesh.sel does; that this is inherited by axis removal WITHOUT exception is proved "
+            "(accepted_subregion_inherited, sel_subregions_acc), the exact fit is the special case exact_fit_accepted, and for a dictionary of "
+            "default-tolerance regions SubsAcc is exactly the setter's acceptance (setter_accepts_iff, setter_accepts_per_axis). NOT proved: "
+            "(i) a subregion the user passed with a non-default tolerance_factor was checked by Mesh(region=sub, cell=...) with THAT factor, "
+            "while Mesh.sel re-offers it with the default 1e-12 - whether the first acceptance implies SubsAcc then is not claimed; "
+            "(ii) acceptance is not invariant under moving or rescaling the mesh (the tolerant containment is relative to the coordinate "
+            "magnitude, the alignment tolerance absolute): integrate_translation_total and subregions_fit_after_history are proved for "
+            "exactly fitting subregions (SubsFit) only",
+            "in-place histories: proved by induction over the history for mesh.scale / mesh.region.scale / mesh.translate / "
+            "mesh.region.translate (cell lengths, dV, all integrals and means) and - second round - with field.rotate90 steps in any "
+            "number and order (runFS: WF kept, dV = volume factor x dV, integrate() and mean() = the per-component cell sums turned by the "
+            "accepted turns; one turn: rotate90_cells, rotate90_integrate_all / _mean_all, rotate90_integrate_dir at value level). NOT proved: "
+            "integrate(d) / cumulative / mean(d) / mean(list) after a HISTORY containing turns (only after a single turn, for integrate(d)); "
+            "acceptance of a turn is C13's characterisation (rotate90_accepted_iff) and needs subregions exactly on the lattice - histories with "
+            "turns are generated on meshes without subregions; the region-only steps do not keep subregions fitting, so existence of "
+            "integrate(d) after them is proved only for meshes without subregions; the code turns the region corners with float sin/cos "
+            "(the model exactly): after the first accepted turn corners and values are compared to 2^-40, not equal",
             "theorems are about exact rational arithmetic: a chain of k means rounds k times in binary64, so the code's "
-            "mean(d1).mean(d2) equals mean([d1, d2]) only to rounding (compared with the 2^-40 bound), while the theorem "
-            "meanSeq_eq_mean_list states exact equality on the model"]
+            "mean(d1).mean(d2) equals mean([d1, d2]) only to rounding (compared with the 2^-40 bound), while the theorems "
+            "meanSeq_eq_mean_list / mean_list_any_order state exact equality on the model",
+            "the refusal equivalences (integrate_rejected_iff, integrate_refusal_kind, mean_rejected_iff) are about the argument CLASSES of the "
+            "model (no direction / one string / list-or-tuple of strings / anything else); that a Python argument falls in the class the harness "
+            "sends (dirOfJson, pydir: tuples as lists, lists holding a non-string as 'anything else') is trusted glue, exercised by stream (c)"]
 BUDGET = {"quick": 120, "thorough": 1200}
 
 NAMES = ["x", "y", "z", "a", "b", "c", "u", "v", "w", "t"]
@@ -90,8 +112,8 @@ CELLS = [Fraction(1, 4), Fraction(1, 2), Fraction(3, 4), Fraction(1), Fraction(5
 
 
 # ------------------------------------------------------------------ generators
-N_FIELD = {"quick": 280, "thorough": 2200}
-N_FLOAT = {"quick": 110, "thorough": 900}
+N_FIELD = {"quick": 240, "thorough": 2200}
+N_FLOAT = {"quick": 100, "thorough": 900}
 N_DTYPE = {"quick": 160, "thorough": 1500}
 N_LONG = {"quick": 8, "thorough": 30}
 
@@ -119,7 +141,7 @@ def gen_long(rng, tier):
                 mag=rng.choice(["small", "range"]), route="array", sub=rng.getrandbits(32))
 
 
-def gen_mesh(rng, tier, ndim=None, n=None, plain=False, far=False):
+def gen_mesh(rng, tier, ndim=None, n=None, plain=False, far=False, tolsub=False):
     ndim = ndim or rng.choice([1, 2, 2, 3, 3, 3, 4, 4])
     nmax = 6 if tier == "quick" else 10
     cap = 160 if tier == "quick" else 500
@@ -149,6 +171,11 @@ def gen_mesh(rng, tier, ndim=None, n=None, plain=False, far=False):
             i1 = rng.randint(i0 + 1, n[a])
             lo.append(float(pmin[a] + i0 * cell[a]))
             hi.append(float(pmin[a] + i1 * cell[a]))
+        if tolsub and not far:
+            # faces moved off the cell lattice by 2^-44 (exactly representable here): accepted by the subregion setter only
+            # thanks to its tolerances (1e-12 alignment, 0.1 % divisibility, region atol), on their clear side
+            lo = [x + rng.choice([0.0, 0.0, 2.0 ** -44, -2.0 ** -44]) for x in lo]
+            hi = [x + rng.choice([0.0, 0.0, 2.0 ** -44, -2.0 ** -44]) for x in hi]
         subs.append([f"r{k}", lo, hi])
     swap = [rng.random() < 0.25 for _ in range(ndim)]
     p1 = [float(b if s else a) for a, b, s in zip(pmin, pmax, swap)]
@@ -198,8 +225,9 @@ def cases(rng, tier):
             yield dict(kind="field", mesh=gen_mesh(rng, tier, ndim, n), nvdim=rng.choice([1, 2, 3]), tier=tier,
                        sub=rng.getrandbits(32))
     for _ in range(N_FIELD[tier]):
-        yield dict(kind="field", mesh=gen_mesh(rng, tier, far=rng.random() < 0.2), nvdim=rng.choice([1, 1, 2, 3, 3, 4]), tier=tier,
-                   far_shift=rng.random() < 0.4, sub=rng.getrandbits(32))
+        far = rng.random() < 0.2
+        yield dict(kind="field", mesh=gen_mesh(rng, tier, far=far, tolsub=(not far and rng.random() < 0.3)),
+                   nvdim=rng.choice([1, 1, 2, 3, 3, 4]), tier=tier, far_shift=rng.random() < 0.4, sub=rng.getrandbits(32))
     for _ in range(N_FLOAT[tier]):
         # data magnitudes 1e-15 .. 1e15 (a per-case decade on top of the per-value 1e-3 .. 1e3)
         yield dict(kind="float", mesh=gen_float_mesh(rng), nvdim=rng.choice([1, 2, 3, 4]), tier=tier,
@@ -254,13 +282,17 @@ def gen_history(rng, tier):
             steps.append(dict(op="translate", vector=[float(Fraction(rng.randint(-40, 40), 4)) for _ in range(ndim)], target=target))
         else:
             a1, a2 = rng.sample(dims, 2)
-            steps.append(dict(op="rotate90", ax1=a1, ax2=a2, k=rng.choice([1, 1, 3, -1, 2])))
+            ref = [float(Fraction(rng.randint(-16, 16), 2)) for _ in range(ndim)] if rng.random() < 0.3 else None
+            steps.append(dict(op="rotate90", ax1=a1, ax2=a2, k=rng.choice([1, 1, 3, -1, 2, 0, 4, -2, 5, -3, 1002, -1001]), ref=ref))
     nv = rng.choice([1, 1, ndim, 3]) if ndim > 1 else rng.choice([1, 2])
-    # integer / boolean data too (numpy reduces them in 64-bit integers / binary64: the exact regime applies); a quarter
-    # turn multiplies vector components by float sin/cos, which integer data cannot hold: binary64 there
+    # integer / boolean data too (numpy reduces them in 64-bit integers / binary64: the exact regime applies)
     dt = "float64"
-    if all(st["op"] != "rotate90" for st in steps) and rng.random() < 0.4:
-        dt = rng.choice(["int8", "int16", "int32", "int64", "uint8", "uint32", "bool"])
+    if rng.random() < 0.4:
+        # since repo fix 1656fb93 a quarter turn multiplies by exact 0 / 1 / -1, so signed integer data stay integer; a turned
+        # component of UNSIGNED / boolean data has no negative to go to (uint8: -3 wraps to 253 or raises; bool: the sign is lost -
+        # reported as a finding of the rotation property, not of this one): vector fields that are turned hold signed data
+        turned = any(st["op"] == "rotate90" for st in steps) and nv > 1
+        dt = rng.choice(["int8", "int16", "int32", "int64"] if turned else ["int8", "int16", "int32", "int64", "uint8", "uint32", "bool"])
     return dict(kind="history", mesh=spec, nvdim=nv, nvdim2=rng.choice([1, 2]), shared=shared, steps=steps, tier=tier,
                 dtype=dt, sub=rng.getrandbits(32))
 
@@ -357,6 +389,13 @@ def do_request(f, req, rng=None, fn_form=False, as_tuple=False):
                 g = integrate_api(g, d, False, fn_form)
             return g
         return call(chain)
+    if op == "integrate_chain":
+        def cchain():
+            g = f
+            for d, cum in zip(req["dirs"], req["cums"]):
+                g = integrate_api(g, d, cum, fn_form)
+            return g
+        return call(cchain)
     if op == "mean_seq":
         def mchain():
             g = f
@@ -705,6 +744,36 @@ def field_oracle(case, f, arr, mesh, rng, fail, exact, light=False, ctx=None):
         if gc.mesh != gl.mesh or not eq_close(gc.array, obj(gl.array), absum, chain_rel):
             fail(f"averaging direction by direction over {s2} differs from mean({s2})")
             return
+    if not light and not ctx:
+        # 5b. the cumulative integral composed with further integrate calls (property: 'acts ... consistent across axes'):
+        # along the same direction every cell counts with its distance to the upper face, cell^2 x sum (n - l - 1/2) x_l;
+        # along another direction the two operations commute; two cumulative integrals commute
+        dcu = dims[rng.randrange(nd)]
+        ac = dims.index(dcu)
+        w = np.array([Fraction(2 * (spec["n"][ac] - l) - 1, 2) for l in range(spec["n"][ac])], dtype=object)
+        shp = [1] * (nd + 1)
+        shp[ac] = spec["n"][ac]
+        exp_same = (A * w.reshape(shp)).sum(axis=ac) * cell[ac] * cell[ac]
+        Rs = call(lambda: f.integrate(dcu, cumulative=True).integrate(dcu))
+        if is_err(Rs) or not same(getattr(Rs, "array", Rs), exp_same, absum * cell[ac] * cell[ac] * spec["n"][ac]):
+            fail(f"integrate('{dcu}', cumulative=True).integrate('{dcu}') is not cell^2 x sum over l of (n - l - 1/2) x value_l")
+            return
+        if nd >= 2:
+            dot = rng.choice([x for x in dims if x != dcu])
+            ao = dims.index(dot)
+            pairs = [(lambda: f.integrate(dcu, cumulative=True).integrate(dot), lambda: f.integrate(dot).integrate(dcu, cumulative=True),
+                      f"integrate('{dcu}', cumulative=True).integrate('{dot}')", f"integrate('{dot}').integrate('{dcu}', cumulative=True)"),
+                     (lambda: f.integrate(dcu, cumulative=True).integrate(dot, cumulative=True),
+                      lambda: f.integrate(dot, cumulative=True).integrate(dcu, cumulative=True),
+                      f"integrate('{dcu}', cumulative=True).integrate('{dot}', cumulative=True)", "the other order")]
+            for fa_, fb_, la, lb in pairs:
+                ra, rb = call(fa_), call(fb_)
+                if is_err(ra) or is_err(rb) or not isinstance(ra, df.Field) or not isinstance(rb, df.Field):
+                    fail(f"{la} / {lb} raised or returned no field")
+                    return
+                if ra.mesh != rb.mesh or not same(ra.array, obj(rb.array), absum * cell[ac] * cell[ao]):
+                    fail(f"{la} differs from {lb}")
+                    return
     if not exact or light:
         return
     # 6. linearity
@@ -945,6 +1014,18 @@ def requests_for(case, rng, dims, tier, with_abs=True):
     if nd >= 2:
         p = list(rng.sample(dims, rng.randint(1, nd - 1)))
         reqs.append(dict(op="mean_seq", dirs=p))
+    # the cumulative integral is a field on the same mesh: integrated again along the same direction, along another one
+    # (both orders), and cumulatively along another one (both orders)
+    if case["kind"] not in ("field", "float"):
+        return reqs  # (two products with a cell length: outside the one-step exactness analysis of the narrow dtypes)
+    dc = dims[rng.randrange(nd)]
+    reqs.append(dict(op="integrate_chain", dirs=[dc, dc], cums=[True, False]))
+    if nd >= 2:
+        do = rng.choice([x for x in dims if x != dc])
+        reqs += [dict(op="integrate_chain", dirs=[dc, do], cums=[True, False]),
+                 dict(op="integrate_chain", dirs=[do, dc], cums=[False, True]),
+                 dict(op="integrate_chain", dirs=[dc, do], cums=[True, True]),
+                 dict(op="integrate_chain", dirs=[do, dc], cums=[True, True])]
     return reqs
 
 
@@ -1012,7 +1093,8 @@ def apply_step(f, st):
     if st["op"] == "translate":
         tgt = m if st["target"] == "mesh" else m.region
         return call(lambda: tgt.translate(tuple(st["vector"]), inplace=True))
-    return call(lambda: f.rotate90(st["ax1"], st["ax2"], k=st["k"], inplace=True))
+    ref = tuple(st["ref"]) if st.get("ref") else None
+    return call(lambda: f.rotate90(st["ax1"], st["ax2"], k=st["k"], reference_point=ref, inplace=True))
 
 
 def same_nested(a, b, exact):
@@ -1152,6 +1234,11 @@ def run_impl(case):
                     f"offset:{'far' if far else 'near'}", f"longest-axis:{'>=1000' if max(case['mesh']['n']) >= 1000 else '<1000'}",
                     f"subs:{len(case['mesh'].get('subs', []))}", f"bc:{'p' if case['mesh'].get('bc') else 'open'}",
                     f"form:{'function' if fn_form else 'method'}"]
+    if case["mesh"].get("subs"):
+        # subregions off the cell lattice (accepted only within the setter's tolerances) vs exactly fitting ones
+        lo, _, cell = frac_geometry(case["mesh"])
+        off = any((Fraction(x) - l) % c != 0 for _, a, b in case["mesh"]["subs"] for x, l, c in list(zip(a, lo, cell)) + list(zip(b, lo, cell)))
+        obs["tags"].append(f"subregions:{'within-tolerance' if off else 'exact-fit'}")
     for r, res in zip(reqs, obs["res"]):
         obs["tags"].append(f"{r['op']}:{'err' if 'err' in res else 'ok'}")
     obs["nontrivial"] = kind != "bad" and ncell >= 2 and len(set(arr.reshape(-1).tolist())) > 1
@@ -1159,17 +1246,15 @@ def run_impl(case):
 
 
 def exact_prefix(case):
-    """number of leading steps the model can replay exactly itself (scale / translate; a quarter turn goes through
-    float sin/cos in the code and ends the prefix)"""
-    p = 0
-    for st in case["steps"]:
-        if st["op"] == "rotate90":
-            break
-        p += 1
-    return p
+    """number of leading steps the model replays itself: all of them (scale / translate through the in-place steps of the
+    shared transformation model, quarter turns through its exact rotate90F); from the first ACCEPTED quarter turn on the
+    code's float sin/cos leave the dyadic grid and the comparison is to 2^-40 (flag `exact` of every stage)"""
+    return len(case["steps"])
 
 
 def step_json(st):
+    if st["op"] == "rotate90":
+        return dict(op="rotate90", ax1=st["ax1"], ax2=st["ax2"], k=st["k"], ref=(Qs(st["ref"]) if st.get("ref") else None))
     if st["op"] == "scale":
         fac = Qs(st["factor"]) if isinstance(st["factor"], list) else Q(st["factor"])
         return dict(op="scale", factor=fac, ref=(Qs(st["ref"]) if st.get("ref") else None), target=st["target"])
@@ -1192,13 +1277,20 @@ def model_requests(case, obs):
 
 
 # ------------------------------------------------------------------ comparison model vs code
-def cmp_mesh(name, got, mj, dis, exact):
+def cmp_mesh(name, got, mj, dis, exact, corner_rel=None):
+    """corner_rel: ABSOLUTE bound on the corner coordinates for states the model reached through its EXACT quarter turn
+    while the code went through float sin/cos (float_turn_bound)"""
     if got["n"] != mj["n"]:
         dis.append(f"{name}: n impl {got['n']} vs model {mj['n']}")
         return
+    mag = Fraction(1)
     for key in ("pmin", "pmax"):
         a, b = got["region"][key], mj["region"][key]
-        if len(a) != len(b) or any(F(x) != F(y) for x, y in zip(a, b)):
+        if corner_rel is None:
+            bad = len(a) != len(b) or any(F(x) != F(y) for x, y in zip(a, b))
+        else:
+            bad = len(a) != len(b) or any(abs(F(x) - F(y)) > Fraction(corner_rel) * mag for x, y in zip(a, b))
+        if bad:
             dis.append(f"{name}: region {key} impl {a} vs model {b}")
             return
     for key in ("dims", "units"):
@@ -1229,7 +1321,7 @@ def cmp_vals(name, a, b, dis, mode, scale, rel=2.0 ** -40):
             return
 
 
-def cmp_res(name, got, resp, dis, mode, scale, rel=2.0 ** -40):
+def cmp_res(name, got, resp, dis, mode, scale, rel=2.0 ** -40, corner_rel=None):
     if "err" in resp:
         if "err" not in got:
             dis.append(f"{name}: impl returned a result, model rejects ({resp['err']})")
@@ -1242,7 +1334,7 @@ def cmp_res(name, got, resp, dis, mode, scale, rel=2.0 ** -40):
         cmp_vals(name, got["vals"], [m] + list(resp["cell"]), dis, mode, scale, rel)
         return
     if "mesh" in got:
-        cmp_mesh(name, got["mesh"], m, dis, mode != "tol")
+        cmp_mesh(name, got["mesh"], m, dis, mode != "tol", corner_rel=corner_rel)
         return
     if ("vals" in got) != ("vals" in m):
         dis.append(f"{name}: impl returns {'an array' if 'vals' in got else 'a field'}, model {'an array' if 'vals' in m else 'a field'}")
@@ -1252,7 +1344,7 @@ def cmp_res(name, got, resp, dis, mode, scale, rel=2.0 ** -40):
         return
     g, mf = got["field"], m["field"]
     n0 = len(dis)
-    cmp_mesh(name + " mesh", g["mesh"], mf["mesh"], dis, mode != "tol")
+    cmp_mesh(name + " mesh", g["mesh"], mf["mesh"], dis, mode != "tol", corner_rel=corner_rel)
     if len(dis) > n0:
         return
     if g["nvdim"] != mf["nvdim"]:
@@ -1285,6 +1377,8 @@ def req_label(r):
         return f"mean({r.get('dir')!r})"
     if r["op"] == "integrate_seq":
         return f"integrate chain {r['dirs']}"
+    if r["op"] == "integrate_chain":
+        return "integrate chain " + ".".join(f"({d!r}, cumulative={c})" for d, c in zip(r["dirs"], r["cums"]))
     if r["op"] == "mean_seq":
         return f"mean chain {r['dirs']}"
     if r["op"] == "dV":
@@ -1382,9 +1476,40 @@ def compare_dtype(case, obs, rs):
     return dis
 
 
+def float_step_bound(err, before, after, st):
+    """a-priori bound on the distance between the corners the code holds (binary64; Region.rotate90 multiplies by
+    np.cos / np.sin of k*pi/2, whose error grows with |k|) and the corners of the exact model, after one more step:
+    a quarter turn adds (|k| + 4) 2^-52 x twice the largest in-plane distance of a corner from the reference point, every step
+    scales the error it inherits by the largest |factor| and adds a rounding of the new corners"""
+    u = Fraction(1, 2 ** 52)
+    rb, ra = before["region"], after["region"]
+    mag = max([abs(F(x)) for key in ("pmin", "pmax") for x in ra[key]] + [abs(F(x)) for key in ("pmin", "pmax") for x in rb[key]])
+    if st["op"] == "rotate90":
+        dims = rb["dims"]
+        if st["ax1"] not in dims or st["ax2"] not in dims:
+            return err
+        lo, hi = [F(x) for x in rb["pmin"]], [F(x) for x in rb["pmax"]]
+        ref = [F(x) for x in st["ref"]] if st.get("ref") else [(a + b) / 2 for a, b in zip(lo, hi)]
+        if len(ref) != len(lo):
+            return err
+        D = max(abs(c - ref[a]) for a in (dims.index(st["ax1"]), dims.index(st["ax2"])) for c in (lo[a], hi[a]))
+        mag = max([mag] + [abs(x) for x in ref])
+        return 2 * err + u * ((abs(st["k"]) + 4) * 2 * D + 4 * mag)
+    if st["op"] == "scale":
+        fac = st["factor"] if isinstance(st["factor"], list) else [st["factor"]]
+        fmax = max(abs(F(x)) for x in fac)
+        if st.get("ref"):
+            mag = max([mag] + [abs(F(x)) for x in st["ref"]])
+        return err * (fmax + 1) + u * 4 * mag * (fmax + 1) if err else err
+    return err + (u * 4 * mag if err else 0)
+
+
 def compare_hist(case, obs, resp, dis):
-    """the model replays the in-place steps itself (hstep of DFV/Model/C06Hist.lean): after every step its mesh and its
-    answers must be those of the real objects, and the accumulated volume factor must be dV_now / dV_initial"""
+    """the model replays ALL in-place steps itself (fstep of DFV/Model/C06Hist.lean: mesh / region steps and quarter turns
+    of the field): after every step its mesh and its answers must be those of the real objects (equal before the first
+    accepted quarter turn, to 2^-40 after it), the accumulated volume factor must be dV_now / dV_initial, and integrate()
+    of the final state must be what theorem turns_history says (volume factor x initial cell volume x the per-component
+    cell sums turned by the accepted quarter turns)"""
     p = exact_prefix(case)
     if "ok" not in resp:
         dis.append(f"model history replay failed: {resp}")
@@ -1392,27 +1517,52 @@ def compare_hist(case, obs, resp, dis):
     states = resp["ok"]
     if len(states) != p + 1:
         raise core.MachineryError("history replay length mismatch")
+    tot = sum(abs(F(x)) for row in obs["stages"][0][0]["field"]["data"] for x in row)
+    abs_err = Fraction(0)   # a-priori bound on |corner(code) - corner(model)| accumulated along the history
+    bounds = []
     for k, state in enumerate(states):
         st = obs["stages"][k][0]
+        exact = st["exact"]
+        if k > 0:
+            abs_err = float_step_bound(abs_err, states[k - 1]["mesh"], state["mesh"], case["steps"][k - 1])
+        reg = state["mesh"]["region"]
+        min_edge = min(F(b) - F(a) for a, b in zip(reg["pmin"], reg["pmax"]))
+        val_rel = Fraction(2.0 ** -40) + 8 * len(reg["pmin"]) * abs_err / min_edge
+        bounds.append((abs_err, val_rel))
         name = f"model-replayed history, after {k} in-place step(s) {case['steps'][:k]}"
         n0 = len(dis)
-        cmp_mesh(name + ": mesh", st["field"]["mesh"], state["mesh"], dis, True)
+        cmp_mesh(name + ": mesh", st["field"]["mesh"], state["mesh"], dis, True, corner_rel=None if exact else abs_err)
         if len(dis) > n0:
             return
         for r, got, out in zip(st["reqs"], st["res"], state["outs"]):
-            cmp_res(f"{name}: {req_label(r)}", got, out, dis, "round" if r["op"] == "mean" else "exact", Fraction(0))
+            if exact:
+                cmp_res(f"{name}: {req_label(r)}", got, out, dis, "round" if r["op"] == "mean" else "exact", Fraction(0))
+            else:
+                sc = tot if r["op"] == "mean" else tot * measure_of(state["mesh"], r)
+                cmp_res(f"{name}: {req_label(r)}", got, out, dis, "tol", sc, rel=val_rel, corner_rel=abs_err)
             if len(dis) > n0:
                 return
-    # volume factor of the whole prefix
-    def dv(k):
+    # volume factor and total integral of the whole history
+    def req_vals(k, op):
         st = obs["stages"][k][0]
         for r, got in zip(st["reqs"], st["res"]):
-            if r["op"] == "dV" and "vals" in got:
-                return F(got["vals"][0])
+            if r["op"] == op and r.get("dir") is None and "vals" in got:
+                return [F(x) for x in got["vals"]]
         return None
-    a, b = dv(0), dv(p)
-    if a is not None and b is not None and F(resp["vol"]) * a != b:
-        dis.append(f"model volume factor of the history {case['steps'][:p]} is {resp['vol']}, impl dV went from {a} to {b}")
+    exact = obs["stages"][p][0]["exact"]
+    a, b = req_vals(0, "dV"), req_vals(p, "dV")
+    if a is not None and b is not None:
+        want = F(resp["vol"]) * a[0]
+        if (want != b[0]) if exact else (abs(want - b[0]) > bounds[p][1] * abs(b[0])):
+            dis.append(f"model volume factor of the history {case['steps'][:p]} is {resp['vol']}, impl dV went from {a[0]} to {b[0]}")
+    it = req_vals(p, "integrate")
+    if it is not None:
+        want = [F(x) for x in resp["itot"]]
+        sc = tot * (b[0] if b is not None else Fraction(1))
+        if len(want) != len(it) or any((x != y) if exact else (abs(x - y) > bounds[p][1] * max(sc, abs(y)))
+                                       for x, y in zip(it, want)):
+            dis.append(f"integrate() after the history {case['steps'][:p]}: impl {it}, theorem turns_history (volume factor x "
+                       f"turned cell sums) gives {resp['itot']}")
 
 
 def measure_of(mj, r):
@@ -1422,7 +1572,7 @@ def measure_of(mj, r):
         ds = list(reg["dims"])
     elif r["op"] in ("integrate", "integrate_abs"):
         ds = [r["dir"]] if isinstance(r["dir"], str) else []
-    elif r["op"] == "integrate_seq":
+    elif r["op"] in ("integrate_seq", "integrate_chain"):
         ds = r["dirs"]
     else:
         ds = []
